@@ -357,7 +357,7 @@ def same_violation(res, want):
     return v["class"] == want["class"] and v.get("sig") == want.get("sig")
 
 
-def minimise_a(sc, binary, rf, race=False, budget=200):
+def minimise_a(sc, binary, rf, race=False, budget=200, wall_budget=240):
     """Greedy delta debugging over one engine A replay file (dict): tasks, ops, switches, map
     permutations, failpoints. A candidate is accepted only if the same violation class with the
     same signature recurs in a fresh process."""
@@ -365,10 +365,14 @@ def minimise_a(sc, binary, rf, race=False, budget=200):
     tmpdir = os.path.join(sc.dir, "min")
     os.makedirs(tmpdir, exist_ok=True)
     want = rf["violation"]
-    reps = 3 if race else 1
+    reps = 2 if race else 1
+
+    t_start = time.time()
+    if race:
+        budget = min(budget, 80)
 
     def test(cand):
-        if tries[0] >= budget:
+        if tries[0] >= budget or time.time() - t_start > wall_budget:
             return False
         tries[0] += 1
         p = os.path.join(tmpdir, "cand%d.json" % tries[0])
@@ -386,6 +390,32 @@ def minimise_a(sc, binary, rf, race=False, budget=200):
         return json.loads(json.dumps(x))
 
     cur = clone(rf)
+    # 0. runs executed earlier in the same process: drop them all if the violation does not need them,
+    #    otherwise delta-debug the list of their seeds
+    if cur.get("prefix") and cur["prefix"].get("seeds"):
+        c = clone(cur)
+        c["prefix"]["seeds"] = []
+        if test(c):
+            cur = c
+        else:
+            lst = cur["prefix"]["seeds"]
+            n = 2
+            while len(lst) >= 1 and tries[0] < budget:
+                chunk = max(1, len(lst) // n)
+                reduced = False
+                for i in range(0, len(lst), chunk):
+                    c = clone(cur)
+                    c["prefix"]["seeds"] = lst[:i] + lst[i + chunk:]
+                    if test(c):
+                        cur = c
+                        lst = c["prefix"]["seeds"]
+                        n = max(n - 1, 2)
+                        reduced = True
+                        break
+                if not reduced:
+                    if chunk == 1:
+                        break
+                    n = min(len(lst), n * 2)
     # 1. serial schedule / identity maps / no failpoints in one go
     for keys in (("switches", "maps", "fails"), ("switches",), ("maps",), ("fails",)):
         c = clone(cur)
@@ -475,7 +505,8 @@ def report_violations_a(prop, sc, binary, agg, race=False, max_report=2):
             continue
         r = min(runs, key=lambda x: x["seed"])
         rf = {"property": prop, "engine": "A-race" if race else "A", "seed": r["seed"], "tree": sc.tree_hash,
-              "spec": r["spec"], "decisions": r["decisions"], "violation": r["violation"]}
+              "spec": r["spec"], "decisions": r["decisions"], "violation": r["violation"],
+              "prefix": {"mode": r["spec"]["mode"], "tier": r.get("tier", "quick"), "seeds": r.get("prefix_seeds") or []}}
         rdir = out_dir("replays")
         raw = os.path.join(rdir, "%s-%d-raw.json" % (prop, r["seed"]))
         json.dump(rf, open(raw, "w"), indent=1)
